@@ -350,3 +350,58 @@ def self_test():  # noqa: F811
     t = ast.parse(POSITIVE_EXAMPLES['sequential_substitution']).body[0]
     ok['sequential_substitution'] = bool(sequential_substitution(t))
     return ok
+
+
+def dependence(stmts):
+    """flow-insensitive data+control dependence inside a statement list: name -> names it may depend on
+    (assignments, augmented assignments, mutating method calls on a name, loop targets; enclosing tests add control deps)"""
+    deps: dict[str, set[str]] = {}
+
+    def visit(body, ctrl):
+        for s_ in body:
+            if isinstance(s_, ast.Assign):
+                for t in s_.targets:
+                    for nm in _names(t):
+                        deps.setdefault(nm, set()).update(_names(s_.value) | ctrl)
+            elif isinstance(s_, ast.AnnAssign) and s_.value is not None:
+                for nm in _names(s_.target):
+                    deps.setdefault(nm, set()).update(_names(s_.value) | ctrl)
+            elif isinstance(s_, ast.AugAssign):
+                for nm in _names(s_.target):
+                    deps.setdefault(nm, set()).update(_names(s_.value) | ctrl)
+            elif isinstance(s_, ast.Expr) and isinstance(s_.value, ast.Call) and isinstance(s_.value.func, ast.Attribute) \
+                    and isinstance(s_.value.func.value, ast.Name):
+                deps.setdefault(s_.value.func.value.id, set()).update(
+                    set().union(*[_names(a) for a in s_.value.args], set()) | ctrl)
+            elif isinstance(s_, ast.If):
+                c = ctrl | _names(s_.test)
+                visit(s_.body, c)
+                visit(s_.orelse, c)
+            elif isinstance(s_, ast.For):
+                for nm in _names(s_.target):
+                    deps.setdefault(nm, set()).update(_names(s_.iter) | ctrl)
+                visit(s_.body, ctrl)
+                visit(s_.orelse, ctrl)
+            elif isinstance(s_, ast.While):
+                visit(s_.body, ctrl | _names(s_.test))
+            elif isinstance(s_, (ast.With,)):
+                visit(s_.body, ctrl)
+            elif isinstance(s_, ast.Try):
+                visit(s_.body, ctrl)
+                for h in s_.handlers:
+                    visit(h.body, ctrl)
+                visit(s_.orelse, ctrl)
+                visit(s_.finalbody, ctrl)
+    visit(stmts, set())
+    return deps
+
+
+def closure(deps, names_):
+    out, stack = set(), list(names_)
+    while stack:
+        x = stack.pop()
+        if x in out:
+            continue
+        out.add(x)
+        stack.extend(deps.get(x, ()))
+    return out
